@@ -44,7 +44,10 @@ def req_tape(draw):
 def case(draw, tier):
     if draw(st.integers(0, 3)) == 0:
         return draw(req_tape())
-    c = draw(sim_case(SCHEDS, tier))
+    from verif.checks.c12 import preempt_case
+    c = draw(st.one_of(sim_case(SCHEDS, tier), sim_case(SCHEDS, tier), sim_case(SCHEDS, tier), preempt_case(tier)))
+    if c["params"]["scheduler_algo"] == "priority" and "random_seed" in c["params"] and c["params"]["random_seed"] == 0 and draw(st.booleans()):
+        c["params"]["scheduler_algo"] = "verif-tape"      # the preemption workload under arbitrary custom decisions
     if c["params"]["scheduler_algo"] == "verif-tape":
         c["tape"] = draw(st.lists(st.integers(0, 2 ** 16), min_size=5, max_size=120))
     return c
